@@ -58,9 +58,12 @@ func genSchedCase(r *rand.Rand) schedCase {
 	case 1:
 		c.Period = int64(1+r.Intn(180)) * 60000000000 // whole minutes
 	case 2:
-		c.Period = int64(r.Intn(3000))*60000000000 + int64(r.Intn(3))*59999999999 + int64(r.Intn(3)) - 1
+		c.Period = int64(r.Intn(300))*60000000000 + int64(r.Intn(3))*59999999999 + int64(r.Intn(3)) - 1
 	default:
-		c.Period = int64(r.Intn(3*86400)) * 1000000000
+		c.Period = int64(r.Intn(3*3600)) * 1000000000
+		if r.Intn(12) == 0 {
+			c.Period = int64(r.Intn(86400)) * 1000000000
+		}
 	}
 	return c
 }
